@@ -110,6 +110,8 @@ pub fn run(tier: Tier) -> i32 {
             .collect(),
     };
     crate::props::txn_props::run_txn(&mut report, "C01", two);
+    // any available_memory: bulk scenarios around the 200-item batch floor (C14 explores this dimension in depth)
+    crate::props::bulk_props::run_into(&mut report, "C01", crate::props::bulk_props::c01_memory_scenarios(tier), if tier == Tier::Quick { 20 } else { 300 }, true);
     report.cov(
         "oracle",
         "S(index) on the decoded raw dump after every build; forest keys untouched by item operations; upstream assert_validity cross-check",
